@@ -43,10 +43,16 @@ type c21State struct {
 	boxes   map[basics.AppIndex]map[string]int    // enumerated boxes: name -> value length
 	ordered []basics.Address
 	vk      *vkCtx
+	// accounts that became SizeSponsor in a group accepted into the block under construction (not yet visible
+	// through the committed-state lookups)
+	pendingSponsor map[basics.Address]bool
 }
 
 // sponsors: does addr carry the size requirement of a live app it did not create?
 func (s *c21State) sponsors(addr basics.Address) bool {
+	if s.pendingSponsor[addr] {
+		return true
+	}
 	for _, other := range s.ordered {
 		for _, ap := range s.acct[other].AppParams {
 			if ap.SizeSponsor == addr {
@@ -98,6 +104,7 @@ func (s *c21State) known() []basics.Address {
 // refresh enumerates every known account and every box of every known app from the committed ledger.
 func (s *c21State) refresh() error {
 	s.acct = map[basics.Address]basics.AccountData{}
+	s.pendingSponsor = map[basics.Address]bool{}
 	s.ordered = s.known()
 	for _, a := range s.ordered {
 		ad, _, _, err := s.w.l.LookupLatest(a)
@@ -269,7 +276,7 @@ func (s *c21State) plan(rt *rapid.T) c21Plan {
 			names = append(names, n)
 		}
 		sort.Strings(names)
-		switch op := rapid.SampledFrom([]string{"box-create", "box-create", "box-delete", "box-resize", "inner-asset-optin", "inner-asset-create", "inner-app-create", "spend", "app-close"}).Draw(rt, "appOp"); op {
+		switch op := rapid.SampledFrom([]string{"box-delete", "box-resize", "box-create", "box-create", "inner-asset-optin", "inner-asset-create", "inner-app-create", "spend", "app-close", "box-create"}).Draw(rt, "appOp"); op {
 		case "box-create":
 			name := fmt.Sprintf("n%d", rapid.IntRange(0, 40).Draw(rt, "boxName"))
 			name += strings.Repeat("x", rapid.IntRange(0, 20).Draw(rt, "boxNamePad"))
@@ -323,8 +330,8 @@ func (s *c21State) plan(rt *rapid.T) c21Plan {
 			pl.op, pl.ops = op, []*txntest.Txn{tx}
 		}
 	} else {
-		switch op := rapid.SampledFrom([]string{"asset-optin", "app-create", "app-optin", "asset-create", "spend", "asset-closeout", "app-closeout",
-			"app-clear", "app-delete", "asset-destroy", "size-update", "close-account"}).Draw(rt, "edgeOp"); op {
+		switch op := rapid.SampledFrom([]string{"app-delete", "size-update", "asset-closeout", "app-closeout", "app-clear", "asset-destroy", "asset-optin",
+			"app-create", "app-optin", "asset-create", "spend", "close-account", "app-create", "app-optin"}).Draw(rt, "edgeOp"); op {
 		case "asset-optin":
 			var cands []basics.AssetIndex
 			for _, a := range s.assets {
@@ -581,6 +588,9 @@ func TestVerif_C21_MinBalance(t *testing.T) {
 				var mbe *ledgercore.MinBalanceError
 				isMB := errors.As(err, &mbe)
 				plans, accepted = append(plans, pl), append(accepted, err == nil)
+				if err == nil && pl.op == "size-update" {
+					s.pendingSponsor[pl.target] = true
+				}
 				verdict := "accepted"
 				switch {
 				case isMB:
